@@ -174,6 +174,9 @@ def main(pid, tier, seed):
         recs = [(rng.randint(1, 6), rng.choice(base), None) for _ in range(rng.randint(4, 9))]
         recs += [(2, 'skip\x0cme', None), (1, 'tab\there', None)]
         recs += [(2, 'été' if encoding != 'cp1251' else 'пароль', None), (1, 'Zoë9' if encoding != 'cp1251' else 'Любовь1', None)]   # non-ASCII in every list
+        # repeated passwords the Markov side cannot rate (shorter than the n-gram size 3, longer than 21 characters, a character
+        # outside the alphabet): every occurrence counts the same in every spelling of the list
+        recs += [(3, 'ab', None), (2, 'y' * 25, None), (3, 'q~' + 'z' * 4, None)]
         if encoding == 'utf-8':
             # a password that BEGINS with U+FEFF (the bytes of a byte-order mark) is a password like any other, in every spelling;
             # it is never the first line of the file
